@@ -23,6 +23,7 @@ type Engine struct {
 	InitOnlyGlobals map[*ssa.Global]bool
 	GlobalInit      map[*ssa.Global]ssa.Value // constant initialisers found in init
 	Debug  bool
+	RepoDir string
 }
 
 type Obligation struct {
